@@ -11,25 +11,54 @@ CHECK_DEADLOCK FALSE
 """
 
 
-def run_blocks(v, tag, module, name, cases, consts, bs=100, needs_sem=False, timeout=3000, carrier=2):
-    """Run a TraceBlocks-style module.  cases=None: spec mode (cases enumerated inside TLC)."""
-    wd = workdir(name)
-    env = {}
-    if cases is not None:
-        path = os.path.join(wd, 'cases.ndjson')
-        write_ndjson(path, cases)
-        env['CASES'] = path
+class _Agg:
+    def __init__(self):
+        self.fails, self.dones, self.infos, self.wall = [], [], [], 0.0
+
+
+def run_blocks(v, tag, module, name, cases, consts, bs=100, needs_sem=False, timeout=3000, carrier=2, chunk_bytes=60_000_000):
+    """Run a TraceBlocks-style module.  cases=None: spec mode (cases enumerated inside TLC).  Large case lists are
+    validated in chunks of about chunk_bytes of ND-JSON (TLC's Json module loads the whole file); FAIL indices are
+    re-based to the full list."""
     c = consts + (f'\n MaxCarrier = {carrier}\n MaxCarrierApp = 2' if needs_sem else '')
-    res = run_tlc(module, CFG.format(bs=bs, consts=c), wd, env=env, timeout=timeout)
-    tlc_must_be_clean(res, name)
-    done = sum(d[2] for d in res.dones)
-    if cases is not None and done != len(cases):
-        raise MachineryError(f'{name}: TLC examined {done} of {len(cases)} recorded cases')
-    v.add_tlc(res)
-    if cases is not None:
-        v.cov['traces_validated_against_impl'] += len(cases)
-    pi2v.log(f'[{tag}] {name}: {done} cases, {len(res.fails)} FAIL, {res.wall:.1f}s')
-    return res, done
+    if cases is None:
+        wd = workdir(name)
+        res = run_tlc(module, CFG.format(bs=bs, consts=c), wd, env={}, timeout=timeout)
+        tlc_must_be_clean(res, name)
+        v.add_tlc(res)
+        done = sum(d[2] for d in res.dones)
+        pi2v.log(f'[{tag}] {name}: {done} cases, {len(res.fails)} FAIL, {res.wall:.1f}s')
+        return res, done
+    import json
+    lines = [json.dumps(r, separators=(',', ':')) for r in cases]
+    chunks, cur, size = [], [], 0
+    for ln in lines:
+        if cur and size + len(ln) > chunk_bytes:
+            chunks.append(cur); cur, size = [], 0
+        cur.append(ln); size += len(ln) + 1
+    chunks.append(cur)
+    agg, off = _Agg(), 0
+    for k, ch in enumerate(chunks):
+        wd = workdir(name if len(chunks) == 1 else f'{name}-{k}')
+        path = os.path.join(wd, 'cases.ndjson')
+        with open(path, 'w') as f:
+            f.write('\n'.join(ch) + ('\n' if ch else ''))
+        res = run_tlc(module, CFG.format(bs=bs, consts=c), wd, env={'CASES': path}, timeout=timeout)
+        tlc_must_be_clean(res, name)
+        done = sum(d[2] for d in res.dones)
+        if done != len(ch):
+            raise MachineryError(f'{name}: TLC examined {done} of {len(ch)} recorded cases')
+        v.add_tlc(res)
+        agg.fails += [[f[0], f[1] + off] + list(f[2:]) for f in res.fails]
+        agg.dones += res.dones
+        agg.infos += res.infos
+        agg.wall += res.wall
+        off += len(ch)
+        if len(chunks) > 1 and k < len(chunks) - 1:
+            os.remove(path)           # keep only the last chunk's case file (selftest reads <name>/cases.ndjson for single-chunk runs)
+    v.cov['traces_validated_against_impl'] += len(cases)
+    pi2v.log(f'[{tag}] {name}: {len(cases)} cases in {len(chunks)} chunk(s), {len(agg.fails)} FAIL, {agg.wall:.1f}s')
+    return agg, len(cases)
 
 
 class Gen:
